@@ -124,10 +124,56 @@ pub fn any_line() -> impl Strategy<Value = GenLine> {
         (crate::c12::amount_strategy(), crate::c12::unit_strategy()).prop_map(|(a, u)| Line::new(vec![Tok::num(a), Tok::word(&u.source_name(), Class::Unit)])),
         crate::c05::value_strategy().prop_map(|p| Line::new(vec![Tok::with("", p, "%", Class::Percent)])),
         crate::c10::part_strategy().prop_map(|p| Line::new(p.toks("en"))),
+        crate::c09::datelit("en").prop_map(|d| Line::new(d.toks("en"))),
     ];
-    let c03 = (var_value, 0u8..8, 0u8..8).prop_map(|(v, k, n)| {
-        let (prelude, line) = with_variable(v, k, n);
+    let c03 = (var_value, 0u8..10, 0u8..9).prop_map(|(v, k, n)| {
+        let (mut prelude, mut line) = with_variable(v, k % 8, n);
+        // kinds 8 and 9: the definition itself is the last line (`ürün = 12 march`)
+        if k >= 8 {
+            line = prelude.pop().unwrap();
+        }
         GenLine { prelude, line, lang: "en".into(), tz: None, src: "C03".into() }
+    });
+    // two names of which one is a word-prefix of the other, both bound; the line starts with the longer one
+    let pair_value = || prop_oneof![
+        crate::c05::value_strategy().prop_map(|v| Line::new(vec![Tok::num(v)])),
+        crate::c06::money_lit(crate::c06::rated_key()).prop_map(|m| Line::new(vec![m.tok()])),
+    ];
+    let c03b = (pair_value(), pair_value(), 0u8..4, 0u8..4).prop_map(|(a, b, pair, kind)| {
+        let (short, long) = [("rent", "rent total"), ("net", "net amount"), ("ürün", "ürün ölçü"), ("total", "total cost")][pair as usize % 4];
+        let def = |name: &str, v: Line| {
+            let mut l = Line::default();
+            for w in name.split(' ') {
+                l.push(Tok::word(w, Class::Var));
+            }
+            l.push(Tok::op('='));
+            l.extend(v);
+            l
+        };
+        let mut u = Line::default();
+        for w in long.split(' ') {
+            u.push(Tok::word(w, Class::Var));
+        }
+        match kind % 4 {
+            0 => {}
+            1 => {
+                u.push(Tok::op('-'));
+                u.push(Tok::word(short, Class::Var));
+            }
+            2 => {
+                u.push(Tok::op('*'));
+                u.push(Tok::num(NumLit::new(2.0)));
+            }
+            _ => {
+                u.push(Tok::op('+'));
+                u.push(Tok::word(short, Class::Var));
+                u.push(Tok::op('+'));
+                for w in long.split(' ') {
+                    u.push(Tok::word(w, Class::Var));
+                }
+            }
+        }
+        GenLine { prelude: vec![def(short, a), def(long, b)], line: u, lang: "en".into(), tz: None, src: "C03".into() }
     });
     // sentences with the operator words of either language (times, minus, add / çarpı, eksi, topla ...)
     let c19 = crate::c19::opword_strategy().prop_map(|(line, lang)| GenLine { prelude: vec![], line, lang, tz: None, src: "C19".into() });
@@ -143,5 +189,6 @@ pub fn any_line() -> impl Strategy<Value = GenLine> {
         1 => c13,
         1 => c14,
         2 => c03,
+        1 => c03b,
     ]
 }
